@@ -13,8 +13,9 @@ K3  the property itself on the real generator: one schema generated from one fil
     server thread, with/without descriptions, headers with $ENV, TLS with verify on/off); packages
     compared class by class after parsing with `ast`.
 
-Every model function that a proposed patch (fixes/C19-*.diff) changes exists in two variants; the tie
-reports which variant the code under test follows (unpatched => the finding, patched => nothing)."""
+The model follows /repo after the fixes 4077122 / 4fe57ef / 6530558; the former witnesses of the fixed finding
+classes (defaults via introspection, malformed data, URL without scheme, directory named like a schema file) stay
+in the streams as regression cases: a failure there is a VIOLATION."""
 from __future__ import annotations
 
 import itertools
@@ -42,16 +43,6 @@ def L(*a):
 
 def I(*a):
     return [Sym("introspect"), *a]
-
-
-class Variants:
-    """Which variant of each patched function the code under test follows."""
-
-    def __init__(self):
-        self.seen = {"walk": set(), "errors": set(), "defaults": set()}
-
-    def note(self, flag, fixed):
-        self.seen[flag].add(bool(fixed))
 
 
 # =============================================================== encoders
@@ -319,7 +310,7 @@ def real_load(root):
         return ["err", "other:" + type(e).__name__, []]
 
 
-def k_loader(ctx, var: Variants, tmp):
+def k_loader(ctx, tmp):
     from ariadne_codegen.schema import walk_graphql_files
     from graphql import parse
 
@@ -338,52 +329,36 @@ def k_loader(ctx, var: Variants, tmp):
         cases.append((root, dirs, files, entries))
     cmds = []
     for root, dirs, files, entries in cases:
-        for fx in (False, True):
-            cmds.append(L(Sym("walk"), fx, entries))
-            cmds.append(L(Sym("load-dir"), fx, entries))
+        cmds.append(L(Sym("walk"), entries))
+        cmds.append(L(Sym("load-dir"), entries))
     res = model.batch(ENG, cmds)
     nfind = 0
     for ci, (root, dirs, files, entries) in enumerate(cases):
         run.count()
-        m = {fx: (res[4 * ci + 2 * k], res[4 * ci + 2 * k + 1]) for k, fx in enumerate((False, True))}
+        mw, (ml, mdefs) = res[2 * ci], res[2 * ci + 1]
         r_walk = [list(p.relative_to(root).parts) for p in sorted(walk_graphql_files(Path(root)))]
         r_load = real_load(root)
         replay = {"tree": {"dirs": ["/".join(d) for d in dirs], "files": {"/".join(p): t for p, t in files.items()}},
                   "impl": {"walk": r_walk, "load": r_load}}
 
-        def matches(fx):
-            mw, (ml, _defs) = m[fx]
-            return mw == r_walk and ml == r_load
-
         nsel = len(r_walk)
         run.dist("loader_selected_files", str(min(nsel, 6)) + ("+" if nsel > 6 else ""))
         run.dist("loader_outcome", r_load[0] if r_load[0] == "ok" else r_load[1])
-        differ = m[False] != m[True]
-        if differ:
-            # a directory carrying one of the extensions is in the tree
-            if matches(False):
-                var.note("walk", False)
-                nfind += 1
-                # property oracle: the tree is a legitimate split, loading it must not crash
-                run.finding("F19-dir-suffix", f"directory named like a schema file is opened as a file: {r_load}", replay)
-                run.dist("finding_inputs", "dir-with-extension")
-            elif matches(True):
-                var.note("walk", True)
-            else:
-                run.violation("K1 loader: implementation matches neither model variant", {**replay, "model": m},
-                              found_input=r_load[0] == "err" and r_load[1].startswith("other"))
-        elif not matches(False):
-            mw, (ml, _d) = m[False]
-            # search: does the property fail here?  (same tree, some file order / missing file)
-            fail = r_load[0] == "ok" and ml[0] == "ok" and sorted(r_load[1].split("\n")) != sorted(ml[1].split("\n"))
+        has_sd = any(d and d[-1].endswith(EXTS) for d in dirs)
+        if has_sd:
+            nfind += 1
+            run.dist("regression_inputs", "dir-with-extension (former F19-dir-suffix)")
+        if mw != r_walk or ml != r_load:
+            # search: does the property fail here?  (a crash, a missing file, another order of whole files)
+            fail = (r_load[0] == "err" and r_load[1] != "syntax") or (
+                r_load[0] == "ok" and ml[0] == "ok" and sorted(r_load[1].split("\n")) != sorted(ml[1].split("\n")))
             run.violation(f"K1 loader disagrees: impl walk {r_walk} load {str(r_load)[:200]} / model walk {mw} load {str(ml)[:200]}",
                           {**replay, "model": {"walk": mw, "load": ml}}, found_input=fail)
         if r_load[0] == "ok" and nsel == 0:
             run.dist("loader_outcome", "no-file-selected(empty text)")
         if r_load[0] == "ok" and nsel > 0:
             # K2: parse(joined text) is the concatenation of the per-file definition lists
-            fxv = True if (differ and matches(True)) else False
-            names_model = [(d[0] == "t", d[1]) for d in m[fxv][1][1]]
+            names_model = [(d[0] == "t", d[1]) for d in mdefs]
             try:
                 doc = parse(r_load[1])
                 names_real = [("Extension" in type(d).__name__, enc_defn(d)[1]) for d in doc.definitions]
@@ -413,7 +388,7 @@ def k_loader(ctx, var: Variants, tmp):
         if mres != r:
             run.violation(f"K1 load of a single file {name!r}: impl {r} model {mres}", {"name": name, "text": text}, found_input=False)
     run.extra["loader_trees"] = ntrees
-    run.extra["loader_dir_suffix_cases"] = nfind
+    run.extra["loader_dir_with_extension_cases"] = nfind
 
 
 # =============================================================== 3. headers
@@ -557,7 +532,7 @@ def py_failure_class(url_class, status, body):
     return None
 
 
-def k_outcomes(ctx, var: Variants):
+def k_outcomes(ctx):
     from ariadne_codegen.schema import get_graphql_schema_from_url
     from graphql import build_client_schema
 
@@ -615,64 +590,38 @@ def k_outcomes(ctx, var: Variants):
                 build_client_schema(body["data"], assume_valid=True)
             except Exception as e:  # noqa
                 deep = type(e).__name__
-        for fx in (False, True):
-            cmds.append(I(Sym("outcome"), fx, Sym("ok"), c["status"], bsx, opt(deep)))
+        cmds.append(I(Sym("outcome"), Sym("ok"), c["status"], bsx, opt(deep)))
         meta.append(("ok", c, real, msg))
     for cls, u in url_cases:
         real, msg = classify_real(lambda: get_graphql_schema_from_url(u))
-        for fx in (False, True):
-            cmds.append(I(Sym("outcome"), fx, Sym(cls), 200, None, None))
+        cmds.append(I(Sym("outcome"), Sym(cls), 200, None, None))
         meta.append((cls, {"status": 200, "raw": b"", "label": f"url:{cls}:{u[:40]!r}", "url": u[:200]}, real, msg))
     res = model.batch(ENG, cmds)
     unknown_sub = 0
     for i, (cls, c, real, msg) in enumerate(meta):
         run.count()
-        mu, mf = res[2 * i], res[2 * i + 1]
+        mo = res[i]
         want_fail = py_failure_class(cls, c["status"], c["raw"])
         run.dist("introspection_response_class", want_fail or "well-formed")
+        if cls == "noscheme" or want_fail == "malformed-data":
+            run.dist("regression_inputs", "former F19-bad-url-scheme" if cls == "noscheme" else "former F19-malformed-data")
         run.nontrivial_case(("resp", c["label"].split("/", 1)[-1] if cls == "ok" else c["label"]))
         replay = {"case": c["label"], "status": c["status"], "body": c["raw"].decode("latin1")[:400], "url_class": cls,
-                  "url": c.get("url"), "impl": real, "impl_message": (msg or "")[:300], "model_unpatched": mu, "model_patched": mf}
-
-        def same(mo):
-            o = mo[0]
-            if o[0] != real[0]:
-                return False
-            if o[0] == "crash":
-                return o[1] == real[1] or real[1] == "UnsupportedProtocol" == o[1]
-            if o[0] == "introspection-error":
-                if real[1] == ["build"] and o[1][0] != "build":
-                    return False  # message not recognised as one of the six classes
-                return o[1][0] == real[1][0] and (o[1][0] != "status" or o[1][1] == real[1][1])
-            return True
-
+                  "url": c.get("url"), "impl": real, "impl_message": (msg or "")[:300], "model": mo}
+        o = mo[0]
+        same = o[0] == real[0]
+        if same and o[0] == "introspection-error":
+            same = o[1][0] == real[1][0] and (o[1][0] != "status" or o[1][1] == real[1][1])
         # K1 on the classification predicates themselves
-        if (mu[1] == "t") != (want_fail is not None):
+        if (mo[1] == "t") != (want_fail is not None):
             run.broken("K1 failure-class predicate (any_failure) disagrees with the harness statement", json.dumps(replay)[:1500])
+        # the property's own oracle: a failure class surfaces as IntrospectionError, anything else builds a schema
         prop_fails = (want_fail is not None and real[0] != "introspection-error") or (want_fail is None and real[0] != "schema")
-        # the Coq guard g_c19_errors is false exactly on the inputs where the two model variants differ
-        if (mu[2] == "f") != (mu[0] != mf[0]):
-            run.broken("K1 guard g_c19_errors is not the class on which the variants differ", json.dumps(replay)[:1500])
-        if mu != mf:
-            if same(mu):
-                var.note("errors", False)
-                if prop_fails:
-                    sub = "F19-bad-url-scheme" if cls == "noscheme" else "F19-malformed-data"
-                    run.finding(sub, f"{c['label']}: {real}", replay)
-                    run.dist("finding_inputs", sub)
-            elif same(mf):
-                var.note("errors", True)
-                if prop_fails:
-                    run.violation(f"introspection failure class {want_fail} does not surface as IntrospectionError: {real}", replay)
-            else:
-                run.violation(f"K1 outcome: impl {real} matches neither model variant ({mu[0]} / {mf[0]})" +
-                              ("; property fails on this input" if prop_fails else ""), replay, found_input=prop_fails)
-        else:
-            if not same(mu):
-                run.violation(f"K1 outcome: impl {real} vs model {mu[0]} on {c['label']}" +
-                              ("; property fails on this input" if prop_fails else ""), replay, found_input=prop_fails)
-            elif prop_fails:
-                run.violation(f"introspection failure class {want_fail} does not surface as IntrospectionError: {real}", replay)
+        if prop_fails:
+            run.violation(f"introspection response class {want_fail or 'well-formed'} on {c['label']}: {real}"
+                          + ("" if same else f" (model: {o})"), replay)
+        elif not same:
+            run.violation(f"K1 outcome: impl {real} vs model {o} on {c['label']}", replay, found_input=False)
     run.extra["outcome_cases"] = len(meta)
 
 
@@ -838,6 +787,32 @@ def scenario_input(ctx, seed, i, tls):
     return sc
 
 
+def corpus_scenarios():
+    """Former witnesses of the fixed finding classes (and of the open one), run first through the same oracle."""
+    def feat(**kw):
+        base = {"descriptions": False, "extensions": False, "custom_roots": False, "mutation": False, "definitions": 2,
+                "inputs": 1, "input_defaults": 0, "input_deprecated": 0, "nonnull_defaults": 0, "operations": 1,
+                "default_kinds": []}
+        base.update(kw)
+        return base
+    ops = "query Q($i: In) { f(i: $i) }"
+    out = [
+        {"seed": "corpus-defaults", "customs": [], "ops": ops,
+         "defs": ["input In {\n  nn: Int! = 7\n  d: Int = 5\n  s: String! = \"x\"\n  l: [Int!] = [1, 2]\n}", "type Query {\n  f(i: In): Int\n}"],
+         "features": feat(input_defaults=4, nonnull_defaults=2, default_kinds=["int", "list", "string"])},
+        {"seed": "corpus-deprecated", "customs": [], "ops": ops,
+         "defs": ["input In {\n  a: Int\n  old: Int @deprecated\n}", "type Query {\n  f(i: In): Int\n}"],
+         "features": feat(input_deprecated=1)},
+    ]
+    for sc in out:
+        # former F19-dir-suffix: directories named like schema files, at two levels
+        sc["layouts"] = [[("v1.graphql/schema.graphql", [0]), ("v1.graphql/x.gql/q.graphqls", [1])],
+                         [("a.gql", [1]), ("old.graphqls/b.graphql", [0])]]
+        sc["noise"] = ["README.md"]
+        sc["introspection"] = [{"headers": {"Authorization": "$C19_TOKEN"}, "env": {"C19_TOKEN": "tok"}}]
+    return out
+
+
 def run_worker(sc, tmp):
     sc = dict(sc, tmp=tmp)
     env = dict(os.environ)
@@ -884,7 +859,7 @@ def make_tls(tmp):
     return None
 
 
-def k_scenarios(ctx, var: Variants, tmp):
+def k_scenarios(ctx, tmp):
     from ariadne_codegen.schema import get_graphql_schema_from_path
     from graphql import get_introspection_query
 
@@ -893,14 +868,15 @@ def k_scenarios(ctx, var: Variants, tmp):
     tls = make_tls(tmp)
     run.extra["tls_loopback"] = bool(tls)
     seeds = [ctx.seed * 100000 + 1000 + i for i in range(n)]
-    scs = [scenario_input(ctx, s, i, tls) for i, s in enumerate(seeds)]
+    scs = corpus_scenarios() + [scenario_input(ctx, s, i, tls) for i, s in enumerate(seeds)]
+    run.extra["corpus_scenarios"] = [sc["seed"] for sc in scs[:2]]
     with ThreadPoolExecutor(max_workers=int(os.environ.get("VERIF_JOBS", "16"))) as ex:
         futs = [ex.submit(run_worker, sc, tmp) for sc in scs]
         # meanwhile, in this process: type map of every layout (model vs build_ast_schema), field decisions
         inproc = [inprocess_scenario(ctx, sc, tmp, si) for si, sc in enumerate(scs)]
         results = [f.result() for f in futs]
     want_query = get_introspection_query(descriptions=False)
-    for sc, res, (minfo, dec_u, dec_f) in zip(scs, results, inproc):
+    for sc, res, (minfo, dec) in zip(scs, results, inproc):
         feat = sc["features"]
         for k in ("descriptions", "extensions", "custom_roots", "mutation"):
             run.dist("scenario_" + k, str(feat[k]))
@@ -1015,7 +991,7 @@ def k_scenarios(ctx, var: Variants, tmp):
                 d = module_equal_modulo_order(sp[f], ip[f])
                 if d:
                     run.violation(f"{key}: {f} differs between SDL and introspection: {d}", {**replay, "file": f, "diff": d})
-            compare_inputs(run, var, sp["input_types.py"], ip["input_types.py"], minfo, dec_u, dec_f, replay, key)
+            compare_inputs(run, sp["input_types.py"], ip["input_types.py"], minfo, dec, replay, key)
     run.extra["scenarios"] = n
 
 
@@ -1027,12 +1003,11 @@ def inprocess_scenario(ctx, sc, tmp, si):
     run = ctx.run
     sdl = "\n\n".join(sc["defs"])
     schema, minputs, info = sdl_inputs(sdl)
-    r = model.batch(ENG, [I(Sym("inputs"), False, minputs), I(Sym("inputs"), True, minputs)])
-    (dec_sdl, dec_via_u, wf, *_), (_, dec_via_f, *_) = r
-    info["__empty_class_via__"] = any(len(fs) == 0 for _t, fs in dec_via_u)
+    dec_sdl, dec_via, wf, *_ = model.call(ENG, I(Sym("inputs"), minputs))
+    info["__empty_class_via__"] = any(len(fs) == 0 for _t, fs in dec_via)
     if wf != "t":
         run.broken("K1 wf_sdl", f"schema built from SDL is not wf_sdl for the model (seed {sc['seed']})")
-    k2_via_introspection(run, schema, minputs, dec_via_u)
+    k2_via_introspection(run, schema, minputs, dec_via)
     # type map of every layout vs the model's
     base = real_type_map(schema)
     for li, layout in enumerate(sc["layouts"][:2]):
@@ -1057,7 +1032,7 @@ def inprocess_scenario(ctx, sc, tmp, si):
             run.violation(f"split schema does not load: {type(e).__name__}: {e}", {"seed": sc["seed"], "layout": layout})
             shutil.rmtree(root, ignore_errors=True)
             continue
-        mm = model_type_map(model.call(ENG, L(Sym("tree-type-map"), False, entries)))
+        mm = model_type_map(model.call(ENG, L(Sym("tree-type-map"), entries)))
         real_cmp = {n: (k, [(m[0], m[1]) for m in ms]) for n, (k, ms) in real.items()}
         if mm != real_cmp:
             bad = [n for n in set(mm) | set(real_cmp) if mm.get(n) != real_cmp.get(n)]
@@ -1068,62 +1043,33 @@ def inprocess_scenario(ctx, sc, tmp, si):
                           {"seed": sc["seed"], "layout": layout, "model": {n: mm.get(n) for n in bad[:4]},
                            "impl": {n: real_cmp.get(n) for n in bad[:4]}}, found_input=base_cmp != real_sorted)
         shutil.rmtree(root, ignore_errors=True)
-    return info, (dec_sdl, dec_via_u), (dec_sdl, dec_via_f)
+    return info, (dec_sdl, dec_via)
 
 
-def compare_inputs(run, var, sdl_mod, intro_mod, info, dec_u, dec_f, replay, key):
-    """Input models of the SDL route vs the introspection route: K1 against the model's decisions (both variants)
-    and the property's own oracle (same fields, same required set, same defaults)."""
+def compare_inputs(run, sdl_mod, intro_mod, info, dec, replay, key):
+    """Input models of the SDL route vs the introspection route: K1 against the model's decisions and the property's
+    own oracle (same fields, same required set, same defaults)."""
     sc_ = sdl_mod["classes"]
     ic_ = intro_mod["classes"]
     if set(sc_) != set(ic_):
         run.violation(f"{key}: input classes differ: {sorted(set(sc_) ^ set(ic_))}", replay)
         return
 
-    def decisions(dec):
-        return {t: {f: d for f, d in fs} for t, fs in dec}
+    def decisions(d):
+        return {t: {f: x for f, x in fs} for t, fs in d}
 
-    d_sdl = decisions(dec_u[0])
-    d_via = {False: decisions(dec_u[1]), True: decisions(dec_f[1])}
+    d_sdl, d_via = decisions(dec[0]), decisions(dec[1])
 
     def agrees(field, d):
         if d[0] == "required":
             return field["required"]
         if d[0] == "none":
             return not field["required"] and field["default"] == "None"
-        lit_null = d[1] == "n"
+        lit_null = d[1] == "n"     # literal / value
         return not field["required"] and field["default"] is not None and (field["default"] != "None" or lit_null)
 
-    # K1, SDL route
-    for t, cls in sc_.items():
-        have = {f["wire"]: f for f in cls["fields"]}
-        if set(have) != set(d_sdl.get(t, {})):
-            run.violation(f"K1 {t}: generated fields {sorted(have)} vs schema {sorted(d_sdl.get(t, {}))}", replay, found_input=False)
-            continue
-        for fn, f in have.items():
-            if not agrees(f, d_sdl[t][fn]):
-                run.violation(f"K1 SDL route {t}.{fn}: generated {f} vs model decision {d_sdl[t][fn]}", replay, found_input=False)
-    # K1, introspection route: which variant?
-    fits = {}
-    for fx in (False, True):
-        ok = True
-        for t, cls in ic_.items():
-            have = {f["wire"]: f for f in cls["fields"]}
-            if set(have) != set(d_via[fx].get(t, {})):
-                ok = False
-                break
-            if not all(agrees(f, d_via[fx][t][fn]) for fn, f in have.items()):
-                ok = False
-                break
-        fits[fx] = ok
-    discriminating = d_via[False] != d_via[True]
-    if discriminating:
-        if fits[False] and not fits[True]:
-            var.note("defaults", False)
-        elif fits[True] and not fits[False]:
-            var.note("defaults", True)
     # the property's oracle on the two packages
-    problems = {"F19-input-defaults": [], "F19-deprecated-input-fields": [], "other": []}
+    problems = {"defaults": [], "F19-deprecated-input-fields": [], "other": []}
     for t, cls in sc_.items():
         ifields = {f["wire"]: f for f in ic_[t]["fields"]}
         for f in cls["fields"]:
@@ -1140,19 +1086,32 @@ def compare_inputs(run, var, sdl_mod, intro_mod, info, dec_u, dec_f, replay, key
             if g["required"] != f["required"] or not same_default:
                 what = (f"{t}.{f['wire']}: SDL {'required' if f['required'] else '= ' + str(f['default'])} / "
                         f"introspection {'required' if g['required'] else '= ' + str(g['default'])}")
-                (problems["F19-input-defaults"] if meta.get("has_default") else problems["other"]).append(what)
+                (problems["defaults"] if meta.get("has_default") else problems["other"]).append(what)
         extra = set(ifields) - {f["wire"] for f in cls["fields"]}
         if extra:
             problems["other"].append(f"{t}: fields only via introspection {sorted(extra)}")
-    if not (fits[False] or fits[True]):
-        run.violation(f"K1 {key}: input models via introspection match neither model variant" +
-                      ("; property fails: " + "; ".join(sum(problems.values(), [])[:4]) if any(problems.values()) else ""),
-                      {**replay, "generated": ic_, "model_unpatched": d_via[False], "model_patched": d_via[True]},
-                      found_input=any(problems.values()))
-    for cls_id in ("F19-input-defaults", "F19-deprecated-input-fields"):
-        if problems[cls_id]:
-            run.finding(cls_id, "; ".join(problems[cls_id][:6]), {**replay, "problems": problems[cls_id]})
-            run.dist("finding_inputs", cls_id)
+    failing = problems["defaults"] + problems["other"]
+    # K1: generated fields vs the model's decisions, both routes
+    for route, classes, dd in (("SDL", sc_, d_sdl), ("introspection", ic_, d_via)):
+        for t, cls in classes.items():
+            have = {f["wire"]: f for f in cls["fields"]}
+            if set(have) != set(dd.get(t, {})):
+                run.violation(f"K1 {key} {route} route {t}: generated fields {sorted(have)} vs model {sorted(dd.get(t, {}))}"
+                              + ("; property fails: " + "; ".join(failing[:4]) if failing else ""), replay, found_input=bool(failing))
+                continue
+            for fn, f in have.items():
+                if not agrees(f, dd[t][fn]):
+                    run.violation(f"K1 {key} {route} route {t}.{fn}: generated {f} vs model decision {dd[t][fn]}"
+                                  + ("; property fails: " + "; ".join(failing[:4]) if failing else ""),
+                                  replay, found_input=bool(failing))
+    if problems["F19-deprecated-input-fields"]:
+        run.finding("F19-deprecated-input-fields", "; ".join(problems["F19-deprecated-input-fields"][:6]),
+                    {**replay, "problems": problems["F19-deprecated-input-fields"]})
+        run.dist("finding_inputs", "F19-deprecated-input-fields")
+    if problems["defaults"]:
+        # former class F19-input-defaults (fixed by 4077122): a regression is a violation
+        run.violation(f"{key}: input defaults differ between SDL and introspection: " + "; ".join(problems["defaults"][:6]),
+                      {**replay, "problems": problems["defaults"]})
     if problems["other"]:
         run.violation(f"{key}: input models differ outside the known classes: " + "; ".join(problems["other"][:6]),
                       {**replay, "problems": problems["other"]})
@@ -1171,14 +1130,13 @@ def run(ctx):
         "httpx 0.28 (URL classes InvalidURL / UnsupportedProtocol, is_success, json()), CPython pathlib ordering and suffix",
         "file names are compared as UTF-8 byte strings (= code point order); trees without symlinks",
     ]
-    var = Variants()
     tmp = tempfile.mkdtemp(prefix="c19-", dir="/var/tmp")
     try:
         k_suffix_and_order(ctx)
-        k_loader(ctx, var, tmp)
+        k_loader(ctx, tmp)
         k_headers(ctx)
-        k_outcomes(ctx, var)
-        k_scenarios(ctx, var, tmp)
+        k_outcomes(ctx)
+        k_scenarios(ctx, tmp)
     finally:
         shutil.rmtree(tmp, ignore_errors=True)
     # concrete failing inputs first (the report prints a bounded number of VIOLATION lines)
@@ -1187,8 +1145,3 @@ def run(ctx):
         k = (v["found_input"], v["what"][:22])
         v["_rank"] = seen_kind[k] = seen_kind.get(k, -1) + 1
     run.violations.sort(key=lambda v: (not v["found_input"], v.pop("_rank")))   # one of each kind first
-    for flag, seen in var.seen.items():
-        if len(seen) > 1:
-            run.broken("model variants", f"the code follows the patched model on some inputs and the unpatched one on others ({flag})")
-    run.extra["code_variant"] = {k: ("patched" if v == {True} else "unpatched" if v == {False} else "undetermined" if not v else "mixed")
-                                 for k, v in var.seen.items()}
